@@ -546,6 +546,13 @@ def _o_types(op):
     DT, DA, TI = p.DateTime, p.Date, p.Time
     ts = (w - _exp_off(zr, w, fold)[0]) / US
     one = dt.timedelta(hours=5, microseconds=1)
+    # a float timestamp that is not a whole number of microseconds: less than half a microsecond below / above a whole second, a
+    # half-way case, a tiny negative one (the native constructors round half-even to the microsecond and carry into the seconds)
+    import zlib
+    hq = zlib.crc32(("tf" + repr(op)).encode())
+    whole = float(int(ts))
+    tf = (whole - 4e-07, whole + 0.9999996, whole - 2.4e-07, whole + 4e-07, whole + 0.0000005, whole + 0.9999995, -4e-07, 0.9999996,
+          59.9999997, -1.0000003, ts + 3e-07, ts - 3e-07)[hq % 12]
     checks = [
         ("date()", DA, lambda: pv.date(), lambda: na.date()),
         ("time()", TI, lambda: pv.time(), lambda: na.time()),
@@ -558,6 +565,9 @@ def _o_types(op):
         ("fromtimestamp", DT, lambda: DT.fromtimestamp(ts), lambda: dt.datetime.fromtimestamp(ts)),
         ("fromtimestamp(tz)", DT, lambda: DT.fromtimestamp(ts, pv.tzinfo), lambda: dt.datetime.fromtimestamp(ts, na.tzinfo)),
         ("utcfromtimestamp", DT, lambda: DT.utcfromtimestamp(ts), lambda: dt.datetime.utcfromtimestamp(ts)),
+        ("fromtimestamp(sub-us)", DT, lambda: DT.fromtimestamp(tf), lambda: dt.datetime.fromtimestamp(tf)),
+        ("fromtimestamp(sub-us, tz)", DT, lambda: DT.fromtimestamp(tf, pv.tzinfo), lambda: dt.datetime.fromtimestamp(tf, na.tzinfo)),
+        ("utcfromtimestamp(sub-us)", DT, lambda: DT.utcfromtimestamp(tf), lambda: dt.datetime.utcfromtimestamp(tf)),
         ("fromordinal", DT, lambda: DT.fromordinal(pv.toordinal()), lambda: dt.datetime.fromordinal(na.toordinal())),
         ("combine", DT, lambda: DT.combine(na.date(), na.time()), lambda: dt.datetime.combine(na.date(), na.time())),
         ("combine(pendulum)", DT, lambda: DT.combine(pv.date(), pv.time()), lambda: dt.datetime.combine(na.date(), na.time())),
@@ -603,7 +613,8 @@ def _o_types(op):
     return None
 
 
-_SAME_MOMENT = ("fromtimestamp", "fromtimestamp(tz)", "utcfromtimestamp", "astimezone(utc)", "fromordinal", "strptime",
+_SAME_MOMENT = ("fromtimestamp", "fromtimestamp(tz)", "utcfromtimestamp", "fromtimestamp(sub-us)", "fromtimestamp(sub-us, tz)",
+                "utcfromtimestamp(sub-us)", "astimezone(utc)", "fromordinal", "strptime",
                 "fromisocalendar")
 
 
